@@ -29,7 +29,13 @@
     offline trees (`Proofs/Validate.lean`: as many reserved trees as reservations — a counting
     argument —, reservation + tree counter = free frames of the tree, unreserved counters exact).
 
-  PARTIAL: `stats_at(order 0)` / `is_free` and the tree counters at the end of
+  * `stats_at_frame_exact` / `is_free_exact` — the per-frame query `stats_at(frame, 0)` reports one
+    free frame exactly if the frame is not allocated, and `is_free(frame, order)` answers exactly
+    whether every frame of the (aligned, in-range) block is free — every order 0..TREE_ORDER: the
+    counter shortcuts, the single-row mask test, the whole-row loop and the table-entry loop;
+    both read only and never panic (`Proofs/LowerQuery.lean`).
+
+  PARTIAL: the tree counters at the end of
   concurrent interleavings are carried by the correspondence (statistics, `stats_at`, `is_free`,
   `tree_stats` and `validate()` compared with the ownership model after every call of every
   sequential history and at the quiescent end of every explored interleaving).
@@ -39,6 +45,7 @@ import LLFreeV.Proofs.OwnLowerThreads
 import LLFreeV.Proofs.TreeStats
 import LLFreeV.Proofs.FastTotal
 import LLFreeV.Proofs.Validate
+import LLFreeV.Proofs.LowerQuery
 namespace LLFree.C04
 open LLFree Prog
 
@@ -122,6 +129,22 @@ theorem stats_exact (c : Cfg) (okg : GeomOk c.geom) (m : Mem) (inv : LowerInv c 
 theorem stats_at_tree_exact (c : Cfg) (okg : GeomOk c.geom) (m : Mem) (inv : LowerInv c m) (i : Nat) (hi : i < c.ntrees) :
     Runs m (Lower.statsAt c.geom (i * c.geom.treeFrames) c.geom.treeOrder) (fun st m' => m = m' ∧
       st.freeFrames = m.freeInTree c.geom i) := statsAt_tree_spec okg m inv i hi
+
+/-- **`stats_at(frame, 0)`** (the per-frame query): one free frame exactly if the frame is not
+    allocated; reads only, never panics. -/
+theorem stats_at_frame_exact (c : Cfg) (ok : GeomOk16 c.geom) (m : Mem) (inv : LowerInv c m) (f : Nat) (hf : f < c.frames) :
+    runSolo (Lower.statsAt c.geom f 0) m =
+      (m, .ok { freeFrames := if m.allocated c.geom f then 0 else 1 }) :=
+  statsAt_frame_exact ok m inv f hf
+
+/-- **`is_free(frame, order)`** answers `true` exactly if no frame of the block is allocated, for
+    every order up to the tree order and every aligned block inside the managed range (the
+    arguments the source asserts); reads only, never panics. -/
+theorem is_free_exact (c : Cfg) (ok : GeomOk16 c.geom) (m : Mem) (inv : LowerInv c m) (frame order : Nat)
+    (hal : frame % 2 ^ order = 0) (hin : frame + 2 ^ order ≤ c.frames) (hto : order ≤ c.geom.treeOrder) :
+    ∃ b, runSolo (Lower.isFree c.geom frame order) m = (m, .ok b) ∧
+      (b = true ↔ ∀ i, i < 2 ^ order → m.allocated c.geom (frame + i) = false) :=
+  isFree_exact ok m inv frame order hal hin hto
 
 /-- **Fast = exact − hidden, per tree**: in every reachable state (between calls) the counter of
     a tree plus the counters of the reservations on it plus the frames hidden by `Offline`
